@@ -940,6 +940,23 @@ func (t *Table) Reduce(cfg SortConfig, aaps []AliasAccPair) error {
 		}
 		return res.String()
 	}
+	// The rows of a group need to be contiguous. Sorting does not guarantee it
+	// when a grouping column mixes cells of different kinds, since those compare
+	// as equal. Hence, gather the rows of each group, keeping the groups in the
+	// order of their first row.
+	var ids []string
+	grps := make(map[string][]Row)
+	for _, r := range t.Data {
+		k := id(r)
+		if _, ok := grps[k]; !ok {
+			ids = append(ids, k)
+		}
+		grps[k] = append(grps[k], r)
+	}
+	t.Data = t.Data[:0]
+	for _, k := range ids {
+		t.Data = append(t.Data, grps[k]...)
+	}
 	for idx, r := range t.Data {
 		current = id(r)
 		// First time.
